@@ -2,7 +2,10 @@
 coq/Base/Base64.v, coq/Pure/Uid.v, coq/Pure/P2PName.v; correspondence against
 server/store/types (Uid codecs, ParseUid32/String32, UserId/ParseUserId,
 GrpToChn/ChnToGrp, P2PName/ParseP2P/P2PNameForUser, UidGenerator.DecodeUid/
-EncodeInt64) through harness/ext/c20.go."""
+EncodeInt64) through harness/ext/c20.go.
+Part B (protobuf <-> JSON equivalence of requests and replies, server/pbconverter.go):
+tools/props/c20pblib.py (reflection prober -> coq/Gen/GenPb.v -> table_ok obligations,
+random messages against the extracted table-driven model coq/Sys/PbTable.v)."""
 import base64
 import struct
 from props import purelib
@@ -398,10 +401,15 @@ def nontrivial(case, out):
 
 
 def run(ctx):
+    # part B (protobuf <-> JSON): regenerates coq/Gen/GenPb.v + ObC20pb.v from vlib.REPO before the Coq
+    # build, records its violations and coverage; part A then builds, runs and finishes the check
+    from props import c20pblib
+    ctx.coverage.update(c20pblib.run_part_b(ctx))
     purelib.run_pure(
         ctx, "c20", gen_cases, monitors, neighbours, nontrivial,
         rule="boundary ids (0, 1, 2^k, 2^k+-1, ~2^k, 2^63, 2^64-1) and seeded random 64-bit ids through every codec (String/MarshalText/String32/UserId/FndName/MarshalJSON/MarshalBinary and back); for sampled ids: the canonical text, its 4 trailing-bit spellings, every single-character mutation (junk set incl. '=', CR, LF, 0x00, 0xFF, '+', '/'; thorough: all 64 alphabet characters at every position), wrong lengths, CR/LF-laden texts, random strings, each through ParseUid/UnmarshalText, prefixed through ParseUserId (good and bad prefixes) and quoted through UnmarshalJSON; base32 texts (lower, upper, mutated, extended, 0xFF padding byte) through ParseUid32; names with good/bad prefixes through GrpToChn/ChnToGrp/IsChannel; pairs (boundary x boundary, random, equal, one-bit-apart, byte-reversed) in both orders through P2PName/ParseP2P/P2PNameForUser; canonical/swapped/16 trailing-bit spellings/mutated/mis-prefixed p2p names through ParseP2P and P2PNameForUser; DecodeUid/EncodeInt64 round trips with the real XTEA cipher (its block answers are passed to the model, whose cipher is a section variable); non-trivial = decoded to a non-zero id / accepted / non-empty name",
         trusted=["harness/ext/c20.go (calls the exported functions of server/store/types of the tree under test; golang.org/x/crypto/xtea with a fixed key)",
                  "tools/props/c20.py law monitors (python restatement of the theorems using python's own base64/struct, evaluated on the implementation's answers)",
                  "Go's encoding/base64, encoding/base32 (go1.23) are modelled in coq/Base/Base64.v from their source and validated by this differential run, not verified",
-                 "the XTEA cipher is a Section variable of the model (assumed: Encrypt/Decrypt are mutually inverse on 8-byte blocks); the run checks the round trip on the real cipher"])
+                 "the XTEA cipher is a Section variable of the model (assumed: Encrypt/Decrypt are mutually inverse on 8-byte blocks); the run checks the round trip on the real cipher"]
+        + c20pblib.PB_TRUSTED)
